@@ -177,6 +177,7 @@ func isFreshAccInit(t *Term) bool {
 
 func runC14(c *Ctx) {
 	R := c.R
+	R.Rule("alloc-nonneg", "no make in the helpers is given a length or capacity that subtracts without the path having excluded a negative result", 8)
 	R.Rule("inputs-readonly", "no helper writes through, deletes from or passes to a writer any slice/map parameter", 30)
 	R.Rule("result-fresh", "promised-new results come from make/append-from-fresh on every path; Trim* return a re-slice of the argument", 14)
 	R.Rule("callback-result-used", "the result of every call of a function-typed parameter is used (branch, return, stored value, loop state)", 10)
@@ -208,6 +209,87 @@ func runC14(c *Ctx) {
 		}
 	}
 
+	// ---- alloc-nonneg: a computed length or capacity of make must not be able to go negative (make panics)
+	for _, fi := range list {
+		ps := paths[fi]
+		if ps == nil {
+			continue
+		}
+		ok, why := true, ""
+		n := 0
+		for _, p := range ps {
+			seen := map[string]bool{}
+			check := func(t *Term) {
+				if t == nil {
+					return
+				}
+				t.Walk(func(x *Term) bool {
+					if x.Op != "mkslice" && x.Op != "mkmap" && x.Op != "mkchan" {
+						return true
+					}
+					if seen[x.Key()] {
+						return true
+					}
+					seen[x.Key()] = true
+					for _, a := range x.Args {
+						if a == nil || a.Op == "none" {
+							continue
+						}
+						n++
+						pl := ToPoly(a)
+						neg := false
+						for k, cf := range pl.M {
+							if cf < 0 {
+								neg = true
+							}
+							_ = k
+						}
+						if !neg {
+							continue
+						}
+						// a subtraction: the path must have shown the result non-negative
+						shown := false
+						for _, cd := range p.Conds {
+							if q, kind, isInt := cd.Rel().IntNorm(); isInt && kind == ">" {
+								if k, isC := pl.Add(polyConst(1), 1).Add(q, -1).IsConst(); isC && k >= 0 {
+									shown = true
+								}
+							}
+						}
+						if !shown {
+							ok, why = false, fmt.Sprintf("make is given the size %s, which can be negative on a path (%s) that has not excluded it: makeslice panics", pl, p.CondString())
+						}
+					}
+					return true
+				})
+			}
+			for i := range p.Events {
+				e := &p.Events[i]
+				check(e.Val)
+				check(e.Addr)
+				for _, a := range e.Args {
+					check(a)
+				}
+			}
+			for _, r := range p.Rets {
+				check(r)
+			}
+			for _, nx := range p.Next {
+				check(nx)
+			}
+			for _, lvs := range p.LoopIn {
+				for _, lv := range lvs {
+					if len(lv.Args) > 0 {
+						check(lv.Args[0])
+					}
+				}
+			}
+		}
+		if n == 0 {
+			continue
+		}
+		R.Decide(ok, "alloc-nonneg", fi.Name, "sizes", c.pos(fi), "every computed make size is a sum of lengths/constants or guarded", why)
+	}
 	// ---- inputs-readonly
 	writers := map[string]int{"builtin.copy": 0, "slices.Fill": 0, "slices.Insert": 0, "slices.InsertSlice": 0, "slices.Remove": 0, "slices.RemoveSlice": 0, "slices.Reverse": 0,
 		"slices.Sort": 0, "slices.SortFunc": 0, "slices.SortDesc": 0, "slices.SortDescFunc": 0, "slices.SortStableFunc": 0, "slices.SortStableDescFunc": 0, "slices.Shuffle": 0, "slices.ShuffleRand": 0,
